@@ -25,6 +25,7 @@ type c10WideCase struct {
 	Shape *jShape `json:"shape"`
 	Seed  int64   `json:"seed"`
 	Doc   string  `json:"doc,omitempty"`
+	Doc2  string  `json:"doc2,omitempty"`
 	Flags int     `json:"flags"`
 	API   string  `json:"api"`
 	Val   int     `json:"val,omitempty"`
@@ -225,6 +226,84 @@ func c10WideDecode(c *Ctx, k c10WideCase, t reflect.Type) {
 	}
 }
 
+// collectBytes gathers every RawMessage / []byte reachable from v (the slice headers as they are now)
+func collectBytes(v reflect.Value, out *[][]byte, depth int) {
+	if depth > 8 {
+		return
+	}
+	switch v.Kind() {
+	case reflect.Pointer, reflect.Interface:
+		if !v.IsNil() {
+			collectBytes(v.Elem(), out, depth+1)
+		}
+	case reflect.Struct:
+		for i := 0; i < v.NumField(); i++ {
+			collectBytes(v.Field(i), out, depth+1)
+		}
+	case reflect.Map:
+		it := v.MapRange()
+		for it.Next() {
+			collectBytes(it.Value(), out, depth+1)
+		}
+	case reflect.Slice:
+		if v.Type().Elem().Kind() == reflect.Uint8 {
+			if v.Len() > 0 {
+				*out = append(*out, v.Bytes())
+			}
+			return
+		}
+		fallthrough
+	case reflect.Array:
+		for i := 0; i < v.Len(); i++ {
+			collectBytes(v.Index(i), out, depth+1)
+		}
+	}
+}
+
+// c10SameDestination: two decodes into the same variable.  The byte slices (RawMessages, []byte) handed out by
+// the first keep their contents through the second, and an input lent to the first with a zero-copy flag is not
+// written to by the second.
+func c10SameDestination(c *Ctx, k c10WideCase, t reflect.Type, doc2 string) {
+	fail := func(w, g string) { c.Diverge("C10", k.API, w, g, "", k) }
+	for _, zc := range []bool{false, true} {
+		in1 := []byte(k.Doc)
+		in2 := []byte(doc2)
+		target := reflect.New(t)
+		var flags json.ParseFlags
+		if zc {
+			flags = json.DontCopyRawMessage | json.DontCopyString | json.DontCopyNumber
+		}
+		var err error
+		c.Eval(1)
+		if p := protect(func() { _, err = json.Parse(in1, target.Interface(), flags) }); p != "" || err != nil {
+			return
+		}
+		var held [][]byte
+		collectBytes(target, &held, 0)
+		snaps := make([]string, len(held))
+		for i, b := range held {
+			snaps[i] = string(b)
+		}
+		if p := protect(func() { err = json.Unmarshal(in2, target.Interface()) }); p != "" {
+			return
+		}
+		if string(in1) != k.Doc {
+			fail("the input lent to the first decode unchanged by a second decode into the same variable: "+clipS(k.Doc), clipS(string(in1)))
+			return
+		}
+		if string(in2) != doc2 {
+			fail("the lent input unchanged: "+clipS(doc2), clipS(string(in2)))
+			return
+		}
+		for i, b := range held {
+			if string(b) != snaps[i] {
+				fail("a RawMessage / []byte handed out by the first decode unchanged by the second decode into the same variable: "+clipS(snaps[i]), clipS(string(b)))
+				return
+			}
+		}
+	}
+}
+
 func c10WideEncode(c *Ctx, k c10WideCase, v reflect.Value) {
 	fail := func(w, g string) { c.Diverge("C10", k.API, w, g, "", k) }
 	x := v.Interface()
@@ -315,6 +394,15 @@ func c10Wide(c *Ctx, shape *jShape) {
 		c.Case()
 		c10WideDecode(c, c10WideCase{Shape: shape, Seed: c.Seed, Doc: doc, Flags: int(fl), API: api}, t)
 	}
+	// two decodes into the same variable (types that can hold byte slices)
+	if strings.Contains(shape.String(), "raw") || strings.Contains(shape.String(), "bytes") || strings.Contains(shape.String(), "any") {
+		for i := 0; i+1 < len(docs) && i < 6; i++ {
+			c.Case()
+			c10SameDestination(c, c10WideCase{Shape: shape, Seed: c.Seed, Doc: docs[i], Doc2: docs[i+1], API: "two decodes into the same variable"}, t, docs[i+1])
+			c.Case()
+			c10SameDestination(c, c10WideCase{Shape: shape, Seed: c.Seed, Doc: docs[i+1], Doc2: docs[i], API: "two decodes into the same variable"}, t, docs[i])
+		}
+	}
 	eapis := []string{"json.Marshal", "json.Append", "Encoder.Encode", "json.Marshal(large)", "json.Append(large)"}
 	for i, v := range shapeValues(shape, c.Seed, jLimit) {
 		for j, api := range eapis {
@@ -332,6 +420,10 @@ func c10WideReplay(c *Ctx, k c10WideCase) {
 		if k.Val > 100000 {
 			c10Huge(c)
 		}
+		return
+	}
+	if k.Doc2 != "" {
+		c10SameDestination(c, k, jTypeOf(k.Shape), k.Doc2)
 		return
 	}
 	if k.Doc != "" || k.API == "Tokenizer" || k.API == "json.Valid" || strings.HasPrefix(k.API, "json.Parse") || k.API == "json.Unmarshal" {
